@@ -67,6 +67,9 @@ class FakeSocket:
     def connect(self, address: Any) -> None:
         self.connect_called = address
         self.net.log("connect", fd=self.fd, addr=address[0])
+        if self.net.connect_exc is not None:
+            # the connect() call itself fails, and not with an OSError (e.g. OverflowError for a port above 65535)
+            raise self.net.connect_exc
         raise BlockingIOError(errno.EINPROGRESS, "in progress")
 
     def getpeername(self) -> Any:
@@ -157,6 +160,7 @@ class Net:
         self.sockets: list[FakeSocket] = []
         self.trace: list[tuple[float, str, dict[str, Any]]] = []
         self.on_socket: Callable[[FakeSocket], None] | None = None
+        self.connect_exc: BaseException | None = None
         self.gai_calls: list[Any] = []
         self.gai_pending: list[tuple[Any, Any]] = []  # (future, (host, port))
         self.gai_answer: Callable[[str, int], Any] | None = None  # immediate answer
